@@ -5,6 +5,7 @@ import RoaringModel.Lemmas.StoreFacts
 import RoaringModel.Lemmas.BitmapQuery
 import RoaringModel.Lemmas.BitmapMut2
 import RoaringModel.Lemmas.SpecFacts
+import RoaringModel.Lemmas.BIterLemmas
 /-!
 # The `Safe_*` side conditions follow from well-formedness (C16)
 
@@ -333,6 +334,32 @@ theorem safe_interLenBitmap (a b : BStore) (ha : a.Inv) (hb : b.Inv) : a.Safe_in
   omega
 
 end BStore
+
+/-! ## BitmapIter -/
+namespace BIter
+
+theorem safe_next (it : BIter) (hi : it.Inv) : it.Safe_next := by
+  refine ⟨fun _ hk => by have := hi.kb; show _ < 2^16; omega, ?_⟩
+  obtain ⟨h1, _, _⟩ := next_cursor it hi
+  split
+  · rename_i x hx
+    rw [h1] at hx
+    exact Nat.lt_of_lt_of_le (rem_lt it hi x (List.mem_of_mem_head? hx)) (by decide)
+  · trivial
+
+theorem safe_nextBack (it : BIter) (hi : it.Inv) : it.Safe_nextBack := by
+  obtain ⟨h1, _, _⟩ := nextBack_cursor it hi
+  unfold Safe_nextBack
+  split
+  · rename_i x hx
+    rw [h1] at hx
+    exact Nat.lt_of_lt_of_le (rem_lt it hi x (List.mem_of_getLast? hx)) (by decide)
+  · trivial
+
+theorem safe_advance (index : Nat) : Safe_advance index := by
+  unfold Safe_advance wbit; omega
+
+end BIter
 
 /-! ## ArrayStore -/
 namespace Arr
@@ -967,6 +994,19 @@ theorem safe_join (hi lo : Nat) (hhi : hi < 4294967296) (hlo : lo < 4294967296) 
   unfold Safe_join join
   have h1 : hi <<< 32 < 2^64 := by rw [Nat.shiftLeft_eq]; omega
   exact ⟨h1, Nat.or_lt_two_pow h1 (by omega)⟩
+
+theorem len_map_full : ∀ (l : List Nat), Bitmap.len (l.map Container.full) = 65536 * l.length
+  | [] => rfl
+  | k :: l => by
+    rw [List.map_cons, Bitmap.len_cons, len_map_full l, List.length_cons]
+    show 65536 + _ = _
+    omega
+
+theorem len_fullBitmap : Bitmap.len fullBitmap = 4294967296 := by
+  unfold fullBitmap; rw [len_map_full, List.length_range]
+
+theorem safe_insertRangeFull (old : Bitmap) (h : old.WF) : Safe_insertRangeFull old := by
+  unfold Safe_insertRangeFull; rw [len_fullBitmap]; exact Bitmap.wf_len_le old h
 
 /-- `len()` cannot overflow on a treemap with fewer than 2^32 partitions -/
 theorem safe_len (t : Treemap) (h : PartsWF t) (hl : t.length < 4294967296) : Safe_len t := by
